@@ -10,7 +10,7 @@ def make(module, conds, timeouts, record):
 
     def run_job(job):
         fname = job['cond'] + ('_twin' if job.get('twin') else '')
-        r = chrun.run_condition(module, fname, timeouts[job['tier']], loader.REPO)
+        r = chrun.run_condition(module, fname, timeouts[job['tier']], loader.REPO, extra_env={'CH_EXTRA': '1' if job['tier'] == 'thorough' else '0'})
         for rel, names in record:
             loader.record_functions(rel, names)
         return chrun.job_result(job, r, fname)
